@@ -344,7 +344,7 @@ func verifies(p parsedJWS, pub crypto.PublicKey) bool {
 
 // signedFor decides the signature clause for issuer id: any = some key the storage holds
 // for id verifies the token; named = the key the header's kid names does.
-func signedFor(tok, id string) (anyKey, named bool) { return signedForReg(registry, tok, id) }
+func signedFor(tok, id string) (anyKey, named bool) { return signedForMemo(vcfg{}, tok, id) }
 
 func signedForReg(reg map[string]map[string]string, tok, id string) (anyKey, named bool) {
 	p := parseCompact(tok)
@@ -462,6 +462,31 @@ type vcfg struct {
 	issuer         string
 	maxAge, offset time.Duration
 	reg            map[string]map[string]string // registration table in force (nil: registry)
+	regName        string                       // names reg (memo key of the signature clause); "" with reg == nil
+}
+
+// signedMemo remembers the verdict of the signature clause: a pure function of (registration
+// table, issuer, token), asked for again for every operation / router / verifier kind / clock
+// setting the same token is presented under.
+var signedMemo sync.Map // signedKey -> [2]bool
+
+type signedKey struct{ reg, id, tok string }
+
+func signedForMemo(cfg vcfg, tok, id string) (anyKey, named bool) {
+	reg := cfg.reg
+	if reg == nil {
+		reg = registry
+	} else if cfg.regName == "" {
+		return signedForReg(reg, tok, id) // unnamed table: not memoised
+	}
+	k := signedKey{cfg.regName, id, tok}
+	if v, ok := signedMemo.Load(k); ok {
+		b := v.([2]bool)
+		return b[0], b[1]
+	}
+	anyKey, named = signedForReg(reg, tok, id)
+	signedMemo.Store(k, [2]bool{anyKey, named})
+	return
 }
 
 // judge is the reference predicate for one assertion presented at instant now to a
@@ -475,11 +500,7 @@ func judge(a assertionT, tok string, t0, now time.Time, cfg vcfg) (want, string)
 	band := cfg.offset + time.Second
 	soft := ""
 	// signature clause
-	reg := cfg.reg
-	if reg == nil {
-		reg = registry
-	}
-	anyKey, named := signedForReg(reg, tok, a.iss)
+	anyKey, named := signedForMemo(cfg, tok, a.iss)
 	if !anyKey {
 		return mustReject, "not-signed-by-a-key-held-for-iss"
 	}
@@ -601,8 +622,9 @@ func TestCheck(t *testing.T) {
 	for _, p := range []struct {
 		name string
 		run  func(*testing.T, *engine.Check)
-	}{{"verify", runVerify}, {"endpoint", runEndpoint}, {"reqobj", runReqObj}, {"interop", runInterop},
-		{"history-verify", runHistoryVerify}, {"history-endpoint", runHistoryEndpoint}, {"history-reqobj", runHistoryReqObj}} {
+	}{ // cheapest first: should the deadline strike on a crowded machine, the small parts are complete
+		{"interop", runInterop}, {"history-reqobj", runHistoryReqObj}, {"history-verify", runHistoryVerify}, {"history-endpoint", runHistoryEndpoint},
+		{"reqobj", runReqObj}, {"endpoint", runEndpoint}, {"verify", runVerify}} {
 		t0 := time.Now()
 		p.run(t, c)
 		walls[p.name] = time.Since(t0).Seconds()
